@@ -35,6 +35,7 @@ class Model:
     self.spec_rec = data['spec']
     self.lkey = data['listkey']
     self.lo, self.hi = data['lo'], data['hi']
+    self.tspecs = data.get('tspecs', {})
     self.keeper = None
     if kind == 'nest':
       # the nested classes (B, then A which refers to B), registered so that records <-> objects round-trip
@@ -49,12 +50,7 @@ class Model:
           vs.CLASSES[cid] = TNested
           vs.CLASS_IDS[TNested] = cid
     if kind in ('obj', 'nest'):
-      fields = [(vs.key_name(k), vs.build(f)) for k, f in self.spec_rec['fields']]
-
-      @pg.members(fields)
-      class TObj(pg.Object):
-        allow_symbolic_assignment = True
-      self.cls = TObj
+      self.new_class()
       self.value_spec = None
       self.fields = {vs.key_name(k): f for k, f in self.spec_rec['fields']}
     else:
@@ -62,8 +58,19 @@ class Model:
       self.value_spec = vs.build(self.spec_rec)
       self.fields = {vs.key_name(k): f for k, f in self.spec_rec['fields']} if kind == 'dict' else {}
 
+  def new_class(self):
+    """A fresh pg.Object class for the schema (one per behaviour: field defaults are class-level state)."""
+    fields = [(vs.key_name(k), vs.build(f)) for k, f in self.spec_rec['fields']]
+
+    @pg.members(fields)
+    class TObj(pg.Object):
+      allow_symbolic_assignment = True
+    self.cls = TObj
+
   def make(self, root: dict, partial: bool, ext: Optional[dict] = None):
     """A fresh real container holding the content `root` (a value record)."""
+    if self.kind in ('obj', 'nest'):
+      self.new_class()
     if self.kind == 'nest':
       # the free-standing object lives in an (untyped) keeper dict: it has a parent, so the holder stores copies
       self.keeper = pg.Dict(e=vs.mkvalue(ext))
@@ -95,6 +102,24 @@ class Model:
   def ext(self):
     return self.keeper.sym_getattr('e')
 
+  def value(self, v: dict):
+    """A fresh Python value for a value record; `tdict` / `tlist` records denote containers that already carry a
+    value spec of their own (a pg.Dict created in partial mode or not, a pg.List)."""
+    if v['t'] == 'tdict':
+      init = {vs.key_name(k): vs.mkvalue(x) for k, x in v['xs'] if x['t'] != 'missing'}
+      return pg.Dict(init, value_spec=vs.build(self.tspecs['tdict']), allow_partial=bool(v['a']))
+    if v['t'] == 'tlist':
+      return pg.List([vs.mkvalue(x) for x in v['xs']], value_spec=vs.build(self.tspecs[f'tlist{v["a"]}']))
+    return vs.mkvalue(v)
+
+  def construct(self, root: dict, partial: bool, omit: int):
+    """Constructor as a write path: a new container from `root` without the argument `omit`."""
+    init = {vs.key_name(k): vs.mkvalue(v) for k, v in root['xs'] if v['t'] != 'missing' and k != omit}
+    if self.kind == 'dict':
+      return pg.Dict(init, value_spec=vs.build(self.spec_rec), allow_partial=partial)
+    init.pop(vs.key_name(2), None) if self.kind == 'obj' else None
+    return self.cls.partial(**init) if partial else self.cls(**init)
+
   def the_list(self, c):
     if self.kind in ('list', 'list2'):
       return c
@@ -113,10 +138,14 @@ def _scope(sc: str):
   return contextlib.nullcontext()
 
 
+class UnknownAction(Exception):
+  """The specification produced a call the driver does not know (machinery failure)."""
+
+
 def execute(m: Model, c, act: List[Any]) -> Optional[BaseException]:
   """Executes the call `act` on the real container through the public API; returns the exception, if any."""
   name = act[0]
-  val = vs.mkvalue
+  val = m.value
   kn = vs.key_name
   try:
     if name in ('DSet', 'DSetAttr', 'OSetAttr', 'Rebind1', 'DSetDefault'):
@@ -140,14 +169,19 @@ def execute(m: Model, c, act: List[Any]) -> Optional[BaseException]:
       with _scope(act[1]):
         c.clear()
     elif name in ('DUpdate', 'DIor', 'Rebind2'):
-      _, _, k1, v1, k2, v2 = act
+      _, sc, k1, v1, k2, v2 = act
       upd = {kn(k1): val(v1), kn(k2): val(v2)}
-      if name == 'DUpdate':
-        c.update(upd)
-      elif name == 'DIor':
-        operator.ior(c, upd)
-      else:
-        c.rebind(upd, raise_on_no_change=False)
+      with _scope(sc):
+        if name == 'DUpdate':
+          c.update(upd)
+        elif name == 'DIor':
+          operator.ior(c, upd)
+        else:
+          c.rebind(upd, raise_on_no_change=False)
+    elif name == 'CtorOmit':
+      with _scope(act[1]):
+        m.last_constructed = None
+        m.last_constructed = m.construct(m.content(c), m.partial_ctor, act[2])
     elif name in ('NSetExtAttr', 'NSetExtRebind'):
       with _scope(act[1]):
         if name == 'NSetExtAttr':
@@ -207,11 +241,13 @@ def execute(m: Model, c, act: List[Any]) -> Optional[BaseException]:
       elif name == 'LImul':
         operator.imul(lst, act[1])
       else:
-        raise AssertionError(f'unknown action {name}')
-  except AssertionError:
+        raise UnknownAction(name)
+  except UnknownAction:
     raise
-  except Exception as e:  # pylint: disable=broad-except
-    return e
+  except BaseException as e:  # pylint: disable=broad-except
+    if isinstance(e, (KeyboardInterrupt, SystemExit)):
+      raise
+    return e                 # whatever the code raises (assertions included) is an outcome, never a crash of the check
   return None
 
 
@@ -221,6 +257,10 @@ def arg_class(m: Model, act: List[Any]) -> str:
   for a in act[1:]:
     if isinstance(a, (list, tuple)) and a and isinstance(a[0], dict):
       recs += list(a)
+  if any(r['t'] == 'tlist' and r['a'] == 1 for r in recs):
+    return 'typed_loose'           # a pg.List bound to a spec with a looser min_size than the field's
+  if any(r['t'] in ('tdict', 'tlist') for r in recs):
+    return 'typed'
   if any(r['t'] == 'missing' for r in recs):
     return 'missing'
   return 'value' if recs else 'none'
@@ -338,13 +378,46 @@ def _norm(rec) -> str:
   return json.dumps(_thaw(rec), sort_keys=True)
 
 
+def _rv(rec) -> str:
+  """Readable form of a value record (never constructs anything, never fails)."""
+  try:
+    rec = _thaw(rec)
+    t, a, xs = rec['t'], rec['a'], rec['xs']
+    if t == 'none':
+      return 'None'
+    if t == 'missing':
+      return 'MISSING'
+    if t == 'bool':
+      return str(bool(a))
+    if t == 'int':
+      return str(a)
+    if t == 'float':
+      return str(a / 10.0)
+    if t == 'str':
+      return repr(vs.STRS.get(a, a))
+    if t in ('list', 'tuple'):
+      return '[' + ', '.join(_rv(x) for x in xs) + ']'
+    if t == 'tlist':
+      return f'pg.List[spec {a}]([' + ', '.join(_rv(x) for x in xs) + '])'
+    kv = ', '.join(f'{vs.key_name(k)}={_rv(x)}' for k, x in xs)
+    if t == 'dict':
+      return '{' + kv + '}'
+    if t == 'tdict':
+      return f'pg.Dict[typed, {"partial" if a else "non-partial"} mode]({kv})'
+    if t == 'obj':
+      return f'Obj{a}({kv})'
+  except Exception:  # pylint: disable=broad-except
+    pass
+  return repr(rec)
+
+
 def _show(act) -> List[Any]:
   out = []
   for a in act:
     if isinstance(a, dict) and 't' in a:
-      out.append(repr(vs.mkvalue(a)))
+      out.append(_rv((a)))
     elif isinstance(a, (list, tuple)) and a and isinstance(a[0], dict):
-      out.append([repr(vs.mkvalue(x)) for x in a])
+      out.append([_rv((x)) for x in a])
     else:
       out.append(a)
   return out
@@ -353,11 +426,13 @@ def _show(act) -> List[Any]:
 def replay_behaviour(chk, m: Model, partial: bool, steps, hits: Dict[str, int], cfg: str, mirror: bool = False) -> None:
   """Replays one TLC behaviour; reports violations through chk; truncates after a divergence."""
   st0 = steps[0].state
+  m.partial_ctor = partial
+  m.last_constructed = None
   c = m.make(st0['root'], partial, _thaw(st0.get('ext')))
   history = []
   got0 = m.content(c)
   init_detail = {'cfg': cfg, 'kind': m.kind, 'partial_ctor': partial, 'step': 0, 'call': ['Init'],
-                 'spec_content': repr(vs.mkvalue(st0['root'])), 'after': repr(vs.mkvalue(got0)), 'mirror': mirror,
+                 'spec_content': _rv((st0['root'])), 'after': _rv((got0)), 'mirror': mirror,
                  'behaviour': [{'act': ['Init'], 'out': 'ok', 'root': _thaw(st0['root']), 'pok': st0['pok'],
                                 'alts': [_thaw(st0['root'])], 'ext': _thaw(st0.get('ext'))}]}
   init_bad = sorted(set(direct_clauses(m, c, bool(st0['pok']))))
@@ -373,14 +448,23 @@ def replay_behaviour(chk, m: Model, partial: bool, steps, hits: Dict[str, int], 
     name = act[0]
     before = m.content(c)
     exc = execute(m, c, act)
-    after = m.content(c)
+    try:
+      after = m.content(c)
+    except Exception as e:  # pylint: disable=broad-except
+      # the container can no longer be read back: an unexpected state is a violation, not a crash of the check
+      chk.violation({'action': name, 'kind': m.kind, 'arg': arg_class(m, act), 'spec_out': st['out'],
+                     'clause': 'unreadable_state'},
+                    {'cfg': cfg, 'kind': m.kind, 'step': n, 'call': _show(act), 'before': _rv(before),
+                     'error': f'{type(e).__name__}: {e}', 'impl_outcome': 'ok' if exc is None else type(exc).__name__})
+      hits['truncated'] = hits.get('truncated', 0) + 1
+      break
     history.append({'call': _show(act), 'spec_out': st['out'], 'impl': 'ok' if exc is None else type(exc).__name__})
     hits[f'{name}:{st["out"]}'] = hits.get(f'{name}:{st["out"]}', 0) + 1
     chk.evaluations += 1
     alts = {_norm(x) for x in st['alts']}
     detail = {'cfg': cfg, 'kind': m.kind, 'partial_ctor': partial, 'step': n, 'call': _show(act),
-              'before': repr(vs.mkvalue(before)), 'after': repr(vs.mkvalue(after)),
-              'spec_out': st['out'], 'spec_content': repr(vs.mkvalue(st['root'])),
+              'before': _rv((before)), 'after': _rv((after)),
+              'spec_out': st['out'], 'spec_content': _rv((st['root'])),
               'impl_outcome': 'ok' if exc is None else f'{type(exc).__name__}: {str(exc)[:160]}',
               'history': history[-8:],
               'behaviour': [{'act': _thaw(s_.state['act']), 'out': s_.state['out'], 'root': _thaw(s_.state['root']),
@@ -389,8 +473,21 @@ def replay_behaviour(chk, m: Model, partial: bool, steps, hits: Dict[str, int], 
                             for s_ in steps[:n + 1]],
               'mirror': mirror}
     base_sig = {'action': name, 'kind': m.kind, 'arg': arg_class(m, act), 'spec_out': st['out']}
-    clauses = direct_clauses(m, c, bool(st['pok']))
-    if m.kind == 'nest':
+    if name in ('DSet', 'DSetAttr', 'OSetAttr', 'DSetDefault', 'DDel', 'DPop', 'CtorOmit'):
+      base_sig['key'] = act[2]
+    elif name == 'Rebind1':
+      base_sig['key'] = act[2][0]
+    try:
+      clauses = direct_clauses(m, c, bool(st['pok']))
+      if name == 'CtorOmit' and exc is None and m.last_constructed is not None:
+        eff = partial if act[1] == 'N' else act[1] == 'T'
+        new_bad = direct_clauses(m, m.last_constructed, eff)
+        clauses = clauses + ['constructed_' + x for x in new_bad]
+        detail['constructed'] = _rv(m.content(m.last_constructed))
+    except Exception as e:  # pylint: disable=broad-except
+      clauses = ['unreadable_state']
+      detail['error'] = f'{type(e).__name__}: {e}'
+    if m.kind == 'nest' and 'unreadable_state' not in clauses:
       clauses = clauses + stale_facts(m.ext())
       ext_now = vs.encode(m.ext())
       detail['ext'] = repr(ext_now)
@@ -444,7 +541,7 @@ def replay_behaviour(chk, m: Model, partial: bool, steps, hits: Dict[str, int], 
   chk.traces += 1
   chk.distinct_case(tuple(_norm(s.state['act']) for s in steps[1:len(history) + 1]))
   if len(chk.samples) < 4 and len(history) >= 3:
-    chk.sample({'cfg': cfg, 'init': repr(vs.mkvalue(st0['root'])), 'calls': history[:6]})
+    chk.sample({'cfg': cfg, 'init': _rv((st0['root'])), 'calls': history[:6]})
 
 
 def replay_simulated(chk, kind: str, partial: bool, cfg: str, num: int, depth: int, seed: int,
